@@ -1,7 +1,7 @@
 //! C07 driver: runs a rule pipeline on each case and records the census of Luau constructs (counted by the
 //! independent parser) of input and output, and whether the output is accepted by the strict Lua 5.1 grammar.
-//! case: {id, src, rules, generator, targets: [construct names], all_rules: bool}
-use crate::text::run_text;
+//! case: {id, src, rules, generator, targets: [construct names], all_rules: bool, bundled: bool (the text is a required module)}
+use crate::text::run_text_opt;
 use crate::util::{arg_value, read_ndjson, Out};
 use luaparse::{Census, Dialect};
 use serde_json::{json, Value};
@@ -38,7 +38,8 @@ pub fn main(args: &[String]) -> i32 {
                 continue;
             }
         }
-        match run_text(src, rules, &generator) {
+        let bundled = c["bundled"].as_bool().unwrap_or(false);
+        match run_text_opt(src, rules, &generator, bundled) {
             Ok(text) => {
                 obs["status"] = json!("ok");
                 match luaparse::census(text.as_bytes(), Dialect::Luau) {
